@@ -5,6 +5,7 @@ package main
 
 import (
 	"go/token"
+	"sort"
 	"go/types"
 	"strings"
 
@@ -566,4 +567,365 @@ func inClusterList(cl []*ssa.Function, fn *ssa.Function) bool {
 		}
 	}
 	return false
+}
+
+// anchorAdvanceRule (C11): in the child-list walk of the differ two loop-carried variables move together:
+// the cursor into the new child list and the path of the last element that is in the new document so far
+// (the anchor after which the next inserted element is placed). On every control-flow edge on which the
+// cursor advances, the anchor must change too; an insert that consumes a new child but leaves the anchor
+// where it was places a run of inserted siblings in reverse order.
+func anchorAdvanceRule(p *Program, r *Reporter, fn *ssa.Function) {
+	r.Rule("E5-ANCHORADVANCE", "wherever the cursor into the new child list advances, the insertion anchor (selector of the next 'add ... after') changes with it", 2)
+	// the new child list: result of ChildElements on the second element parameter
+	var newList ssa.Value
+	for _, b := range fn.Blocks {
+		for _, in := range b.Instrs {
+			if c, ok := in.(*ssa.Call); ok && c.Call.StaticCallee() != nil && c.Call.StaticCallee().Name() == "ChildElements" && len(c.Call.Args) == 1 {
+				if prm, ok := c.Call.Args[0].(*ssa.Parameter); ok && prm.Name() == "new" {
+					newList = c
+				}
+			}
+		}
+	}
+	if newList == nil {
+		r.Broken("%s: the child list of the new element was not found", shortFn(fn))
+		return
+	}
+	// phi webs
+	web := func(seed ssa.Value) map[*ssa.Phi]bool {
+		out := map[*ssa.Phi]bool{}
+		var walk func(v ssa.Value)
+		walk = func(v ssa.Value) {
+			ph, ok := v.(*ssa.Phi)
+			if !ok || out[ph] {
+				return
+			}
+			out[ph] = true
+			for _, e := range ph.Edges {
+				walk(e)
+			}
+		}
+		walk(seed)
+		return out
+	}
+	anchors := map[*ssa.Phi]bool{}
+	cursors := map[*ssa.Phi]bool{}
+	for _, b := range fn.Blocks {
+		for _, in := range b.Instrs {
+			switch x := in.(type) {
+			case *ssa.Call:
+				if x.Call.StaticCallee() != nil && x.Call.StaticCallee().Name() == "CreateAttr" && len(x.Call.Args) == 3 {
+					if k, ok := constString(x.Call.Args[1]); ok && k == "sel" {
+						for ph := range web(x.Call.Args[2]) {
+							anchors[ph] = true
+						}
+					}
+				}
+			case *ssa.IndexAddr:
+				if x.X == newList {
+					for ph := range web(x.Index) {
+						cursors[ph] = true
+					}
+				}
+			}
+		}
+	}
+	n := 0
+	for _, b := range fn.Blocks {
+		var cur, anc *ssa.Phi
+		for _, in := range b.Instrs {
+			if ph, ok := in.(*ssa.Phi); ok {
+				if cursors[ph] {
+					cur = ph
+				}
+				if anchors[ph] {
+					anc = ph
+				}
+			}
+		}
+		if cur == nil || anc == nil {
+			continue
+		}
+		for i, e := range cur.Edges {
+			bo, ok := e.(*ssa.BinOp)
+			if !ok || bo.Op != token.ADD {
+				continue
+			}
+			if k, isC := constInt(bo.Y); !isC || k != 1 {
+				continue
+			}
+			// the anchor values that go with an unchanged cursor
+			for j, ej := range cur.Edges {
+				if j == i || ej != bo.X {
+					continue
+				}
+				n++
+				r.Decide(anc.Edges[i] != anc.Edges[j], "E5-ANCHORADVANCE", shortFn(fn), "cursor+1:"+anc.Comment, p.pos(bo.Pos()), "the anchor changes on the edge on which the cursor advances",
+					"a new child is consumed (cursor + 1) while the insertion anchor keeps the value it has on a path that consumes nothing: the next inserted sibling is placed after the same old element, so a run of inserted elements ends up in reverse order", nil)
+			}
+		}
+	}
+	if n == 0 {
+		r.Broken("%s: no cursor/anchor pair of loop-carried variables recognised", shortFn(fn))
+	}
+}
+
+// halfOpenRule (C14): the intervals of a traffic pattern are half-open, [start, start+dur): the comparison
+// that decides in which interval the second lies is strict. A non-strict comparison lets every interval
+// reach one second into the next.
+func halfOpenRule(p *Program, r *Reporter, stateAt *ssa.Function) {
+	r.Rule("E5-HALFOPEN", "the interval of a traffic pattern is selected by a strict comparison (half-open intervals)", 1)
+	n := 0
+	for _, b := range stateAt.Blocks {
+		if !blockInCycle(b) {
+			continue
+		}
+		ifi, ok := b.Instrs[len(b.Instrs)-1].(*ssa.If)
+		if !ok {
+			continue
+		}
+		bo, ok := ifi.Cond.(*ssa.BinOp)
+		if !ok || !isNumeric(bo.X.Type()) {
+			continue
+		}
+		switch bo.Op {
+		case token.LSS, token.GTR, token.LEQ, token.GEQ:
+		default:
+			continue
+		}
+		// the test decides a return of an interval's state: one successor returns a loaded LossItvl.state
+		retIdx := -1
+		for i, s := range b.Succs {
+			if ret, ok := s.Instrs[len(s.Instrs)-1].(*ssa.Return); ok && len(ret.Results) == 1 {
+				if _, isConst := ret.Results[0].(*ssa.Const); !isConst {
+					retIdx = i
+				}
+			}
+		}
+		if retIdx < 0 || !valueDependsOnField(p, bo, "app.LossItvl.durS") {
+			continue
+		}
+		n++
+		strict := bo.Op == token.LSS || bo.Op == token.GTR
+		if retIdx == 1 {
+			strict = !strict // the state is returned when the test fails: the test itself must be the non-strict complement
+		}
+		r.Decide(strict, "E5-HALFOPEN", shortFn(stateAt), "interval-test", p.pos(bo.Pos()), "the state is returned under a strict comparison",
+			"the interval is selected by a non-strict comparison (test "+bo.Op.String()+", state returned on its "+map[int]string{0: "true", 1: "false"}[retIdx]+" side): the boundary second falls into the earlier interval, so every state lasts one second too long", nil)
+	}
+	if n == 0 {
+		r.Broken("StateAt: no interval-selecting comparison found")
+	}
+}
+
+// errDiscExceptions: the error results of repository calls that are, by design, not returned on every
+// non-nil path (reviewed on the pinned tree). Keyed by caller and callee.
+var errDiscExceptions = map[string]string{
+	"(*app.assetMgr).discoverAssets|(*app.asset).consolidateAsset": "an asset that cannot be consolidated is logged, deleted from the table and the scan goes on (E5-PUBLISH checks the deletion)",
+	"(*app.assetMgr).discoverAssets$1|(*app.assetMgr).loadAsset":   "a directory whose MPD cannot be loaded is logged and skipped; the walk goes on",
+	"(*app.assetMgr).loadRep|(*app.RepData).loadFromJSON":          "(found, err) pair: returned when found; not found comes with a nil error (E5-CLEANSCAN covers the other side)",
+	"(*app.assetMgr).loadRep|(*app.RepData).readMP4Segment":        "fs.ErrNotExist ends the numbered scan; every other error is returned",
+	"(*app.assetMgr).loadRep|(*app.RepData).readThumbSegment":      "fs.ErrNotExist ends the numbered scan; every other error is returned",
+	"cmd/dashfetcher/app.downloadMPD|internal.WriteMPDData":        "dashfetcher tool, not part of the servers",
+	"app.writeInitSegment|app.writeTimeSubsInitSegment":            "(matched, err) pair: returned when matched; not matched comes with a nil error",
+	"app.writeLiveSegment|app.writeTimeSubsMediaSegment":           "(matched, err) pair: returned when matched; not matched comes with a nil error",
+	"app.writeSegment|app.writeTimeSubsMediaSegment":               "(matched, err) pair: returned when matched; not matched comes with a nil error",
+	"app.writeTimeSubsInitSegment|app.matchTimeSubsInitLang":       "(.., ok, err) tuple: not ok comes with a nil error",
+}
+
+// errDiscRule: in the error-returning repository functions statically reachable from the anchors, the
+// error result of every call to a repository function is returned on all its non-nil paths.
+func errDiscRule(p *Program, r *Reporter, anchors ...*ssa.Function) {
+	r.Rule("E5-ERRDISC", "error results of repository calls are returned on every non-nil path (error-returning functions below the property's anchors)", 0)
+	var fns []*ssa.Function
+	for fn := range staticReach(p, anchors...) {
+		fns = append(fns, fn)
+	}
+	sort.Slice(fns, func(i, j int) bool { return shortFn(fns[i]) < shortFn(fns[j]) })
+	for _, fn := range fns {
+		res := fn.Signature.Results()
+		retErr := false
+		for i := 0; i < res.Len(); i++ {
+			if isErrorType(res.At(i).Type()) {
+				retErr = true
+			}
+		}
+		if !retErr {
+			continue
+		}
+		for _, b := range fn.Blocks {
+			for _, in := range b.Instrs {
+				c, ok := in.(*ssa.Call)
+				if !ok {
+					continue
+				}
+				callee := c.Call.StaticCallee()
+				if callee == nil || !p.isRepoFunc(callee) {
+					continue
+				}
+				for _, e := range errorValuesOfCall(c) {
+					construct := "err<-" + shortFn(callee)
+					why := "the error result is discarded"
+					ok := false
+					if e != nil {
+						ok, why = errorReturnedWhenNonNil(e)
+					}
+					if !ok {
+						if reason, isEx := errDiscExceptions[shortFn(fn)+"|"+shortFn(callee)]; isEx {
+							r.Exception("E5-ERRDISC", shortFn(fn), construct, p.pos(instrPos(c)), "reviewed exception: "+reason)
+							continue
+						}
+					}
+					r.Decide(ok, "E5-ERRDISC", shortFn(fn), construct, p.pos(instrPos(c)), why, "an error from "+shortFn(callee)+" can be dropped: "+why, nil)
+				}
+			}
+		}
+	}
+}
+
+func errDiscByName(p *Program, r *Reporter, pkg string, names ...string) {
+	var anchors []*ssa.Function
+	for _, n := range names {
+		if fn := p.mustFunc(r, pkg, n); fn != nil {
+			anchors = append(anchors, fn)
+		}
+	}
+	if len(anchors) > 0 {
+		errDiscRule(p, r, anchors...)
+	}
+}
+
+// limiterSurfaceRule (C20): (a) the counter value a response reports is the value returned by the very
+// Inc call that counted the request, never a second read of the counter (another request may have been
+// counted in between, so values repeat and others are skipped); (b) the client key taken from
+// X-Forwarded-For is not cut at a colon by hand (an IPv6 address contains colons; net.SplitHostPort is
+// the only colon-aware way to drop a port).
+func limiterSurfaceRule(p *Program, r *Reporter, inc *ssa.Function) {
+	r.Rule("E4-HDRCOUNT", "the counter in the response header is the result of the Inc call that counted the request", 1)
+	mw := p.mustFunc(r, pkgApp, "NewLimiterMiddleware")
+	n := 0
+	if mw != nil {
+		for fn := range staticReach(p, mw) {
+			for _, b := range fn.Blocks {
+				for _, in := range b.Instrs {
+					c, ok := in.(*ssa.Call)
+					if !ok || !c.Call.IsInvoke() && (c.Call.StaticCallee() == nil || c.Call.StaticCallee().String() != "(net/http.Header).Set") {
+						continue
+					}
+					if c.Call.IsInvoke() || len(c.Call.Args) < 3 {
+						continue
+					}
+					val := c.Call.Args[2]
+					fromInc, fromCount := false, ""
+					seen := map[ssa.Value]bool{}
+					sliceVisit(p, val, true, func(x ssa.Value) {
+						if seen[x] {
+							return
+						}
+						seen[x] = true
+						switch y := x.(type) {
+						case *ssa.Extract:
+							if cc, ok := y.Tuple.(*ssa.Call); ok && cc.Call.StaticCallee() == inc && y.Index == 0 {
+								fromInc = true
+							}
+						case *ssa.Call:
+							if cal := y.Call.StaticCallee(); cal != nil && cal != inc && cal.Signature.Recv() != nil && strings.Contains(cal.Signature.Recv().Type().String(), "IPRequestLimiter") {
+								fromCount = shortFn(cal)
+							}
+						}
+					})
+					if !fromInc && fromCount == "" {
+						continue // another header
+					}
+					n++
+					r.Decide(fromInc && fromCount == "", "E4-HDRCOUNT", shortFn(fn), "header-value", p.pos(c.Pos()), "formatted from the count returned by Inc",
+						"the counter reported in the header is read again through "+fromCount+" instead of taken from the Inc call that counted this request: under concurrency values repeat and others never appear", nil)
+				}
+			}
+		}
+	}
+	if n == 0 {
+		r.Broken("limiter middleware: no response header formatted from the request count found")
+	}
+	r.Rule("E5-FWDKEY", "the client key taken from X-Forwarded-For is not cut at a colon by hand", 1)
+	ipf := p.mustFunc(r, pkgApp, "ipFromRequest")
+	if ipf == nil {
+		return
+	}
+	cuts := ""
+	for fn := range staticReach(p, ipf) {
+		for _, b := range fn.Blocks {
+			for _, in := range b.Instrs {
+				c, ok := in.(*ssa.Call)
+				if !ok || c.Call.StaticCallee() == nil {
+					continue
+				}
+				switch c.Call.StaticCallee().String() {
+				case "strings.Index", "strings.LastIndex", "strings.IndexByte", "strings.LastIndexByte", "strings.Cut", "strings.Split", "strings.SplitN", "strings.IndexRune":
+					if len(c.Call.Args) >= 2 {
+						if s, ok := constString(c.Call.Args[1]); ok && s == ":" {
+							cuts = c.Call.StaticCallee().String() + " at " + p.pos(c.Pos())
+						}
+						if k, ok := constInt(c.Call.Args[1]); ok && k == ':' {
+							cuts = c.Call.StaticCallee().String() + " at " + p.pos(c.Pos())
+						}
+					}
+				}
+			}
+		}
+	}
+	r.Decide(cuts == "", "E5-FWDKEY", shortFn(ipf), "forwarded-address", p.pos(ipf.Pos()), "no colon-based cutting of the address",
+		"the address is cut at a colon ("+cuts+"): an IPv6 address loses its tail, so different clients share a counter and white-listed IPv6 clients are limited", nil)
+}
+
+// startGuardRule (C04): before availabilityStartTime every request is refused (425), segments included.
+// Each call that serves a media or init segment from the livesim handler is dominated by the failing side of
+// a comparison between the request time and the configured start time, directly or through the success
+// conditions of a helper whose error ends the request.
+func startGuardRule(p *Program, r *Reporter, h *ssa.Function, serving ...string) {
+	r.Rule("E5-STARTGUARD", "segment-serving calls of the handler lie behind the 'now is before the start time' refusal", 1)
+	n := 0
+	for _, fn := range cluster(h) {
+		ff := factsOf(fn)
+		for _, b := range fn.Blocks {
+			for _, in := range b.Instrs {
+				c, ok := in.(*ssa.Call)
+				if !ok || c.Call.StaticCallee() == nil {
+					continue
+				}
+				name := c.Call.StaticCallee().Name()
+				hit := false
+				for _, s := range serving {
+					if s == name {
+						hit = true
+					}
+				}
+				if !hit {
+					continue
+				}
+				n++
+				guarded := false
+				for _, cd := range effectiveDomConds(b) {
+					bo, isBin := cd.V.(*ssa.BinOp)
+					if !isBin {
+						continue
+					}
+					switch bo.Op {
+					case token.LSS, token.LEQ, token.GTR, token.GEQ:
+					default:
+						continue
+					}
+					if valueDependsOnField(p, bo, "app.ResponseConfig.StartTimeS") {
+						guarded = true
+					}
+				}
+				_ = ff
+				r.Decide(guarded, "E5-STARTGUARD", shortFn(fn), "call:"+name, p.pos(c.Pos()), "dominated by a comparison with the configured start time",
+					"segments are served without the 'request is before availabilityStartTime' test: with an infinite (or large) availabilityTimeOffset a segment is answered 200 before the stream has started", nil)
+			}
+		}
+	}
+	if n == 0 {
+		r.Broken("%s: no segment-serving call found", shortFn(h))
+	}
 }
